@@ -809,6 +809,12 @@ def select(cases, tier, rng):
     pick("x_lin", lambda c: c["solver"] == "ivp")
     pick("x_lin", lambda c: c["solver"] == "lap")
     pick("x_lin", lambda c: c["solver"] == "bvp")
+    # option combinations that two seeded changes needed (drawn last, so the picks above stay what they were):
+    # an explicit boundary value together with a short radial range, and split2 with a density the residual fit
+    # really has to represent (the descending user basis is then tried too)
+    pick("bvp_s", lambda c: c["rcut"] and c["boundary"] == "exact")
+    pick("robust_smooth", lambda c: c["split2"])
+    pick("robust_core", lambda c: c["split2"])
     return picked
 
 
